@@ -203,13 +203,22 @@ func histBody(cfgs []histCfg, crashBound int) lib.Body {
 			}
 			// the model oracle also learns row ids, so it runs after every event of
 			// every execution; the (pure) walker only on prefixes not seen before
-			if !cfg.OnlyWalk || c.Fresh() {
+			if cfg.OnlyWalk {
+				// the walker is the property under test: it runs first, so that a broken tree is
+				// reported as such and not ended early by the contents oracle of another property
+				if c.Fresh() && !w.walk(fmt.Sprintf("after event %d", step+1)) {
+					return
+				}
+				if c.Fresh() && !w.checkAll(fmt.Sprintf("after event %d", step+1)) {
+					return
+				}
+			} else {
 				if !w.checkAll(fmt.Sprintf("after event %d", step+1)) {
 					return
 				}
-			}
-			if c.Fresh() && cfg.Walk && !w.walk(fmt.Sprintf("after event %d", step+1)) {
-				return
+				if c.Fresh() && cfg.Walk && !w.walk(fmt.Sprintf("after event %d", step+1)) {
+					return
+				}
 			}
 		}
 		if cfg.FinalReopen && c.Fresh() {
